@@ -177,22 +177,22 @@ func ceiling(s *slip.Scope, f slip.Object, args slip.List, depth int) slip.Value
 		case -1:
 			if d.Sign() == 1 {
 				q = (*slip.Bignum)(&bi)
-				r = (*slip.Ratio)(&zr)
+				r = ratReduce(&zr)
 			} else {
 				q = (*slip.Bignum)(bi.Add(&bi, big.NewInt(1)))
 				_ = zb.SetInt(&bi)
 				_ = zp.Mul(&zb, (*big.Rat)(div.(*slip.Ratio)))
-				r = (*slip.Ratio)(zr.Sub((*big.Rat)(tn), &zp))
+				r = ratReduce(zr.Sub((*big.Rat)(tn), &zp))
 			}
 		case 1:
 			if d.Sign() == 1 {
 				q = (*slip.Bignum)(bi.Add(&bi, big.NewInt(1)))
 				_ = zb.SetInt(&bi)
 				_ = zp.Mul(&zb, (*big.Rat)(div.(*slip.Ratio)))
-				r = (*slip.Ratio)(zr.Sub((*big.Rat)(tn), &zp))
+				r = ratReduce(zr.Sub((*big.Rat)(tn), &zp))
 			} else {
 				q = (*slip.Bignum)(&bi)
-				r = (*slip.Ratio)(&zr)
+				r = ratReduce(&zr)
 			}
 		}
 		q = bigToInteger((*big.Int)(q.(*slip.Bignum)))
